@@ -88,9 +88,16 @@ theorem buckets_distinct (r : Nat) : roleBucket r ≠ kindBucket r ∧ roleBucke
 
 /-- `incrStat` touches exactly the role, kind and global bucket, each once -/
 theorem incrStat_apply (s : Stat) (v : Val) (i : Nat) :
-    incrStat s v i = if i = roleBucket v.role ∨ i = kindBucket v.role ∨ i = 0 then (s i).addVal v else s i := by
+    incrStat s v i = if i = roleBucket v.role ∨ i = kindBucket v.role ∨ i = 0 then (s i).addVal v else s i := rfl
+
+theorem decrStat_apply (s : Stat) (v : Val) (i : Nat) :
+    decrStat s v i = if i = roleBucket v.role ∨ i = kindBucket v.role ∨ i = 0 then (s i).subVal v else s i := rfl
+
+/-- the pointwise form equals the three sequential bucket updates of the Go code -/
+theorem incrStat_eq_seq (s : Stat) (v : Val) : incrStat s v = incrStatSeq s v := by
   obtain ⟨h1, h2, h3⟩ := buckets_distinct v.role
-  simp only [incrStat, upd]
+  funext i
+  simp only [incrStat, incrStatSeq, upd]
   by_cases a : i = 0
   · subst a; simp [Ne.symm h2, Ne.symm h3]
   · by_cases b : i = kindBucket v.role
@@ -99,10 +106,10 @@ theorem incrStat_apply (s : Stat) (v : Val) (i : Nat) :
       · subst c; simp [a, b]
       · simp [a, b, c]
 
-theorem decrStat_apply (s : Stat) (v : Val) (i : Nat) :
-    decrStat s v i = if i = roleBucket v.role ∨ i = kindBucket v.role ∨ i = 0 then (s i).subVal v else s i := by
+theorem decrStat_eq_seq (s : Stat) (v : Val) : decrStat s v = decrStatSeq s v := by
   obtain ⟨h1, h2, h3⟩ := buckets_distinct v.role
-  simp only [decrStat, upd]
+  funext i
+  simp only [decrStat, decrStatSeq, upd]
   by_cases a : i = 0
   · subst a; simp [Ne.symm h2, Ne.symm h3]
   · by_cases b : i = kindBucket v.role
